@@ -4,7 +4,7 @@ import json, os
 V = os.path.dirname(os.path.dirname(os.path.abspath(__file__)))
 m = json.load(open(os.path.join(V, 'MANIFEST.json')))
 k = json.load(open(os.path.join(V, 'known_findings.json')))['findings']
-print('| prop | property theorems (coq/Props/Cxx.v) | lemmas in closure | cases quick | open findings | repaired (fix: commit) |')
+print('| prop | property theorems (coq/Props/Cxx.v) | lemmas in closure | cases in the committed evidence (tier) | open findings | repaired (fix: commit) |')
 print('|---|---|---|---|---|---|')
 for c in sorted(m['checks'], key=lambda c: c['property_id']):
     p = c['property_id']
@@ -13,6 +13,6 @@ for c in sorted(m['checks'], key=lambda c: c['property_id']):
     main = [t for t in th if 'refuted' not in t.lower() and 'example' not in t.lower() and 'satisfiable' not in t.lower() and 'nonvacuous' not in t.lower()]
     opn = [f['id'] for f in k if f['property'] == p and f['status'] == 'open']
     fx = ['%s (%s)' % (f['id'], f['commit']) for f in k if f['property'] == p and f['status'] == 'fixed']
-    print('| %s | %d (%s%s) | %d | %d | %s | %s |' % (p, len(th), ', '.join(main[:6]), ', ...' if len(main) > 6 else '', ev['coverage']['obligations'], ev['coverage']['evaluations'], ', '.join(opn) or '-', ', '.join(fx) or '-'))
+    print('| %s | %d (%s%s) | %d | %d (%s) | %s | %s |' % (p, len(th), ', '.join(main[:6]), ', ...' if len(main) > 6 else '', ev['coverage']['obligations'], ev['coverage']['evaluations'], ev['tier'], ', '.join(opn) or '-', ', '.join(fx) or '-'))
 for x in m.get('not_applicable', []):
     print('| %s | not yet claimed: %s | | | | |' % (x['property_id'], x['reason']))
